@@ -188,7 +188,8 @@ def _mk(kind, name, v):
 def addr(job):
     """(version, kind 'S'|'F', parent name, spelling, canonical setter spelling, value):
     write through `spelling` on a fresh parent; read and delete through `spelling` on a parent populated through the canonical name"""
-    v, kind, parent, x, canon, val = job
+    v, kind, parent, x, canon, val = job[:6]
+    sib = job[6] if len(job) > 6 else None
     try:
         a = _mk(kind, parent, v)
         setattr(a, x, val)
@@ -205,9 +206,19 @@ def addr(job):
     except Exception as e:  # noqa
         rd = 'Rexc:' + vlib.exc_name(e)
     try:
+        if sib is not None:
+            # a neighbour at the same level, written before the delete: deleting through the spelling removes the addressed child ONLY
+            setattr(b, sib, 'SIBL')
+            before_del = b.to_er7()
+            if 'SIBL' not in before_del:
+                sib = None
         delattr(b, x)
         after = b.to_er7()
-        dl = 'D1' if (after == parent if kind == 'S' else val not in after) else 'D0'
+        if sib is not None:
+            body = after[len(parent):] if kind == 'S' else after       # (the segment name itself may contain the value: 'X' in 'OBX')
+            dl = 'D1' if (val not in body.replace('SIBL', '') and 'SIBL' in body) else 'D0'
+        else:
+            dl = 'D1' if (after == parent if kind == 'S' else val not in after) else 'D0'
     except Exception as e:  # noqa
         dl = 'Dexc:' + vlib.exc_name(e)
     return 'ok %s %s %s %s' % (names, vlib.hexs(er7), rd, dl)
